@@ -12,7 +12,7 @@ checks = {
    text="Every datagram of a structured finite alphabet (boundary product of timeslot x power x named device x signer, all 640 single-bit flips, every length 0..81, extensions, field swaps, wrong-prefix signatures) is injected into a live real server at 18+ (offset, now-offset) configurations; after each one the full snapshot, the persisted report log and (at checkpoints) sync bitfield, recent-reports and weekly statistics are compared with the reference model. Complete for the alphabet, silent outside it.",
    note="Datagrams enter through VerifInjectDatagram, which reproduces the listener's 80-byte read; clock is the test build's settable protocol clock; signature scheme (go-ethereum secp256k1) trusted.", ref="3 C01"),
  "C02": dict(engine="E2", cat="model_checking", tech="explicit-state BFS to closure over report histories on the real server vs set-based rule",
-   text="Breadth-first search to closure over all histories of 7 report variants per (device, slot) on the real server; every transition checked against the set-based rule of the property and the reference model, every distinct state through all three public observables. Order independence is checked (permutations must land in one state), not assumed.",
+   text="Breadth-first search to closure over all histories of 7 report variants per (device, slot) on the real server; every transition checked against the set-based rule of the property and the reference model, every distinct state through all three public observables. Order independence is checked (permutations must land in one state), not assumed. The same search runs again in a window that has rotated once (thorough: twice), where array index and timeslot differ.",
    note="Small alphabet (2 devices, 3-5 slots, 7 variants); values outside it are not covered. Capacity arithmetic overflow for capacities > 2^64/135 not exercised.", ref="3 C02"),
  "C03": dict(engine="E2", cat="model_checking", tech="explicit-state BFS over report/clock/rotation/query histories on the real server vs reference model and independent encoder",
    text="BFS (depth-bounded) over histories of reports at window edges, clock moves, rotation-loop ticks, forced rotations, impact rounds, bans and statistics requests (including insert_false_negatives with the random source answering 'always'); at every distinct state every archived week on disk and through the API must equal the model, verify under the server key over an independently written encoding, and be identical to its first appearance (also after false-negatives requests and restart;restart). At every distinct state every held week is also requested under every spelling a parser might normalise (+k*2^32, +2^64, signs, blanks, hex, fraction, exponent, duplicated parameter): only a plain aligned non-future decimal below 2^32 may be answered, labelled with that number. Devices are named 0, 2 and 4294967295.",
@@ -24,10 +24,10 @@ checks = {
    text="BFS over histories of authorizations (valid, duplicate, conflicting in capacity / debt / key / reusing another device's key, flipped signature bit, temp-key, server-key and foreign-GCA signatures), reports, rotation and restart; status codes, device set, bans, public-key index consistency and every public observable compared with the model at every state; the server's own CheckInvariants runs at every Close. The clock stands in the second week of the live window (device 0 reports there, device 2 in the first week). Plus, for every field of an authorization (incl. +0/-0, subnormal and 1-ulp float differences): first, identical resubmission, validly signed second one differing in that field only, original again, restart.",
    note="Depth-bounded (4 quick / 6 thorough).", ref="3 C06"),
  "C07": dict(engine="E2+E1", cat="model_checking", tech="explicit-state BFS over registration/order histories; all interleavings of concurrent registrations under the cooperative scheduler",
-   text="Sequential: BFS to closure from an unregistered server over registrations and GCA-authority orders signed by the temp key, two candidate GCA keys and the server key, with restarts. Concurrent: every interleaving at lock points of competing registrations and an authorization. Exactly one registration may win, the file equals the winner, only the winner's orders are honoured.",
+   text="Sequential: BFS to closure from an unregistered server over registrations and GCA-authority orders signed by the temp key, two candidate GCA keys and the server key, with restarts, and registrations whose key file cannot be opened (EACCES) or written (ENOSPC) and must therefore fail as a whole. Concurrent: every interleaving at lock points of competing registrations and an authorization. Exactly one registration may win, the file equals the winner, only the winner's orders are honoured.",
    note="HTTP transport is bypassed (handlers are called through the server's own mux on the calling goroutine).", ref="3 C07"),
  "C18": dict(engine="E2", cat="model_checking", tech="explicit-state BFS over Printf/advance/ExpireLogs/Dump histories on the real EventLogger under virtual time vs list model",
-   text="BFS over all histories up to depth 5 (quick) / 7 (thorough) of 16 operations for 5 configurations on the real EventLogger under a virtual clock; every transition compared with an exact list model (dump map, dump order, running size counter).",
+   text="BFS over all histories up to depth 5 (quick) / 7 (thorough) of 16 operations for 5 configurations on the real EventLogger under a virtual clock; every transition compared with an exact list model (dump map, dump order, running size counter); every transition runs under a watchdog (an operation that does not return is a violation).",
    note="Distinct Printf calls get distinct time stamps (1 ns apart).", ref="3 C18"),
  "C19": dict(engine="E2+E1", cat="model_checking", tech="explicit-state BFS of sequential histories + exhaustive interleaving exploration (unbounded preemptions) with the clock read as a scheduling point",
    text="Sequential: BFS over Allow/advance histories for limit 1..3 with exact judgement. Concurrent: every interleaving of 3-4 callers and a clock thread (lock acquisition, clock read and tick are scheduling points), judged with interval arithmetic on each call's before/after instants so that only certain violations count. The same bodies run free under the race detector as auxiliary evidence.",
@@ -58,7 +58,7 @@ checks = {
    text="The archive handler runs against six write bursts with every open/read/write/create as a scheduling point and every append that crosses a page boundary visible page by page (<= 2 preemptions quick, 3 thorough); every zip produced is checked for record-aligned prefixes, dependency closure under the archived keys, the exact public key entry and absence of the private key. A BFS over histories of valid, conflicting and forged submissions takes an archive at rest in every distinct state (same oracle; archived file = complete file). The rate limit: every request sequence up to depth 7 over window-edge spacings under virtual time through the handler.",
    note="Preemption-bounded; log-file writes are not scheduling points; tears inside a page are not modelled.", ref="3 C14"),
  "C15": dict(engine="E4", cat="exploration", tech="exhaustive enumeration of per-field boundary products, all lengths and all single-bit flips against independently written reference encoders",
-   text="Boundary products for every structure against independent little-endian encoders incl. the ASCII type prefix; decode(encode(v)) = v; every length around the valid one refused; JSON transport identity; every single-bit flip of message, signature and key and the algebraic signature variants fail verification; signing is deterministic; all signing-byte strings of the corpus are pairwise distinct across values and types.",
+   text="Boundary products for every structure against independent little-endian encoders incl. the ASCII type prefix; client server maps also as all 80 ordered reference-encoded images of 2-3 entries with pairwise different location lengths; decode(encode(v)) = v; every length around the valid one refused; JSON transport identity; every single-bit flip of message, signature and key and the algebraic signature variants fail verification; signing is deterministic; all signing-byte strings of the corpus are pairwise distinct across values and types.",
    note="Field values outside the boundary alphabet are not covered; go-ethereum secp256k1 is trusted.", ref="3 C15"),
  "C16": dict(engine="E4", cat="exploration", tech="exhaustive enumeration of CSV contents x calibration settings on the real reader against an independent rule",
    text="All CSV files of 0..2 rows from 7 timestamps x 14 readings in 8 shapes x 9 calibration settings are read by the real reader of a real client and compared with an independently written rule (skip / sentinel 2 / sentinel 3 / scaled, truncated, two's complement); malformed calibration must be refused by NewClient, never crash.",
@@ -67,7 +67,7 @@ checks = {
    text="Server side: BFS over signed and unsigned server-authorization posts; list compared with the model after every transition. Client side: BFS over sync rounds against scripted servers answering with 15 list/migration variants (incl. one key listed twice: forged after genuine, genuine ban before the genuine older authorization) and client restarts; client state and its three files compared with a client model after every history.",
    note="Depth-bounded (client side 4 quick / 5 thorough).", ref="3 C17"),
  "C20": dict(engine="E4", cat="exploration", tech="exhaustive enumeration of the timeslot domain in a production-tag build; explicit-state exploration of the rotation cadence with measured parameters, model traces replayed on the real rotation loop",
-   text="Production binary: every timeslot 0..14316557 at three instants (thorough: every second of the 2^32-second domain) for exact slot, round trip, monotonicity and pre-genesis refusal; production constants and CurrentTimeslot under the shimmed clock. Live server: acceptance of own-key reports at every distance -434..+434 at both uint32 extremes. Cadence: all ~42k states (now-offset, timer phase) under the production period with trigger/half-width/window measured from the implementation, invariant 'acceptable reports stay inside the window'; 28 model traces replayed against the real loop.",
+   text="Production binary: every timeslot 0..14316557 at three instants (thorough: every second of the 2^32-second domain) for exact slot, round trip, monotonicity and pre-genesis refusal; production constants and CurrentTimeslot under the shimmed clock. Live server: acceptance of own-key reports at every distance -434..+434 at both uint32 extremes. Cadence: all ~42k states (now-offset, timer phase) under the production period with trigger, half-width, window and the start-up behaviour (rotations done by the end of start-up as a function of the lag, exact at its change points) measured from the implementation, invariant 'acceptable reports stay inside the window'; 28 model traces replayed against the real loop.",
    note="High end of uint32 observed through server log lines (auxiliary); timer lateness of at most one slot assumed.", ref="3 C20"),
 }
 levels_engine = {"E1":E1,"E2":E2,"E3":E3,"E4":E4}
